@@ -143,7 +143,8 @@ def pdm_cases(draw, max_leaves):
     pairs = draw(st.lists(st.tuples(st.integers(0, n - 1), st.integers(0, n - 1)), min_size=1, max_size=4))
     return {"spec": sl["spec"], "lenpat": sl["lenpat"], "rooted": draw(st.sampled_from([True, False, None])),
             "hist": hist, "store_edges": draw(st.booleans()), "subsets": subsets, "tm_pairs": [list(p) for p in pairs],
-            "via_class": draw(st.booleans()), "csv": draw(st.sampled_from([None, None, ",", "\t", ";"]))}
+            "via_class": draw(st.booleans()), "csv": draw(st.sampled_from([None, None, ",", "\t", ";"])),
+            "csv_names": draw(st.sampled_from([[True, True], [True, True], [True, False], [False, True]]))}
 
 
 def check_pdm(ctx, case):
@@ -284,12 +285,15 @@ def _check_pdm(ctx, case, ndm_node_limit=90):
     # -- CSV hop: the table read back holds the same entries (weighted and step counts)
     if case.get("csv"):
         delim = case["csv"]
+        rown, coln = case.get("csv_names", [True, True])
         for weighted, col in ((True, 0), (False, 1)):
             out = io.StringIO()
             ctx.call("C14.csv.write", pdm.write_csv, out, is_normalize_by_tree_size=False,
-                     is_weighted_edge_distances=weighted, delimiter=delim)
+                     is_weighted_edge_distances=weighted, delimiter=delim, is_first_row_column_names=rown,
+                     is_first_column_row_names=coln)
             back = ctx.call("C14.csv.read", phylogeneticdistance.PhylogeneticDistanceMatrix.from_csv,
-                            io.StringIO(out.getvalue()), taxon_namespace=ns, delimiter=delim)
+                            io.StringIO(out.getvalue()), taxon_namespace=ns, delimiter=delim,
+                            is_first_row_column_names=rown, is_first_column_row_names=coln)
             ctx.check(sorted(t.label for t in back.taxon_iter()) == sorted(lab.values()) and
                       all(t in tx.values() for t in back.taxon_iter()), "csv_round_trip_keeps_the_taxa", "C14.csv.taxa",
                       lambda: "delimiter %r text %r; %s" % (delim, out.getvalue()[:200], tag))
@@ -299,6 +303,7 @@ def _check_pdm(ctx, case, ndm_node_limit=90):
                     ctx.check(close(got, path[(a, b)][col], scale if weighted else 0.0), "csv_round_trip_keeps_the_entries", "C14.csv.values",
                               lambda: "weighted=%r %s-%s got %r want %r; %s" % (weighted, lab[a], lab[b], got, path[(a, b)][col], tag))
         ctx.cls("pdm:csv_hop:%r" % delim)
+        ctx.cls("pdm:csv_names:row=%r,col=%r" % (rown, coln))
 
     # -- NodeDistanceMatrix: every pair of nodes
     nodes = pre.nodes()
